@@ -860,7 +860,7 @@ impl World for WindowWorld {
         if !matches!(t.kind, Kind::AlphaSliding | Kind::AlphaTumbling | Kind::AlphaNoWindow) {
             if let Some(m) = t.events.iter().map(|e| e.ts).min() {
                 let d = t.duration_ms.max(1) as i64;
-                for off in [m / d * d, m / 2 / d * d, (1i64 << 31) / d * d] {
+                for off in [(1i64 << 31) / d * d, m / 2 / d * d, m / d * d] { // inserted at the front one by one: the largest step ends up first
                     if off > 0 && off <= m {
                         let mut c = t.clone();
                         for e in c.events.iter_mut() {
